@@ -713,6 +713,15 @@ func (db *Default) removeDevice(ctx context.Context, id agd.DeviceID) {
 	db.mapsMu.Lock()
 	defer db.mapsMu.Unlock()
 
+	// Recheck, since the data could have been updated since the lookup that
+	// has started this removal.
+	if profID, ok := db.deviceIDToProfileID[id]; ok {
+		p, profOK := db.profiles[profID]
+		if profOK && slices.Contains(p.DeviceIDs, id) {
+			return
+		}
+	}
+
 	delete(db.deviceIDToProfileID, id)
 }
 
@@ -723,6 +732,15 @@ func (db *Default) removeDedicatedIP(ctx context.Context, ip netip.Addr) {
 
 	db.mapsMu.Lock()
 	defer db.mapsMu.Unlock()
+
+	// Recheck, since the data could have been updated since the lookup that
+	// has started this removal.
+	if id, ok := db.dedicatedIPToDeviceID[ip]; ok {
+		_, d, err := db.profileByDeviceID(ctx, id)
+		if err == nil && slices.Contains(d.DedicatedIPs, ip) {
+			return
+		}
+	}
 
 	delete(db.dedicatedIPToDeviceID, ip)
 }
@@ -791,6 +809,15 @@ func (db *Default) removeHumanID(ctx context.Context, k humanIDKey) {
 	db.mapsMu.Lock()
 	defer db.mapsMu.Unlock()
 
+	// Recheck, since the data could have been updated since the lookup that
+	// has started this removal.
+	if id, ok := db.humanIDToDeviceID[k]; ok {
+		p, d, err := db.profileByDeviceID(ctx, id)
+		if err == nil && p.ID == k.profile && d.HumanIDLower == k.lower {
+			return
+		}
+	}
+
 	delete(db.humanIDToDeviceID, k)
 }
 
@@ -855,6 +882,15 @@ func (db *Default) removeLinkedIP(ctx context.Context, ip netip.Addr) {
 
 	db.mapsMu.Lock()
 	defer db.mapsMu.Unlock()
+
+	// Recheck, since the data could have been updated since the lookup that
+	// has started this removal.
+	if id, ok := db.linkedIPToDeviceID[ip]; ok {
+		_, d, err := db.profileByDeviceID(ctx, id)
+		if err == nil && d.LinkedIP == ip {
+			return
+		}
+	}
 
 	delete(db.linkedIPToDeviceID, ip)
 }
